@@ -252,9 +252,10 @@ fn index_items(items: &[syn::Item], prefix: &str, out: &mut Vec<Value>) {
                     "ty":toks(&*c.ty),"expr_span":sp_of(&*c.expr)}));
             }
             syn::Item::Macro(m) => {
-                // cfg_if! { if #[cfg(..)] { items } } — items inside are opaque tokens; best effort: try to
-                // parse the body of the first braces group as items.
-                let _ = m;
+                let its = cfg_if_items(&m.mac);
+                if !its.is_empty() {
+                    index_items(&its, prefix, out);
+                }
             }
             _ => {}
         }
@@ -392,6 +393,26 @@ fn expr_json(e: &syn::Expr) -> Value {
     v
 }
 
+/// `cfg_if::cfg_if! { if #[cfg(..)] { items } else if #[cfg(..)] { items } else { items } }` -> items of all branches
+fn cfg_if_items(m: &syn::Macro) -> Vec<syn::Item> {
+    use proc_macro2::TokenTree;
+    let mut out = vec![];
+    let last = m.path.segments.last().map(|s| s.ident.to_string()).unwrap_or_default();
+    if last != "cfg_if" {
+        return out;
+    }
+    for tt in m.tokens.clone() {
+        if let TokenTree::Group(g) = tt {
+            if g.delimiter() == proc_macro2::Delimiter::Brace {
+                if let Ok(f) = syn::parse2::<syn::File>(g.stream()) {
+                    out.extend(f.items);
+                }
+            }
+        }
+    }
+    out
+}
+
 struct FnFinder<'a> {
     want: &'a str,
     found: Option<Value>,
@@ -455,6 +476,12 @@ fn find_fn(items: &[syn::Item], prefix: &str, ff: &mut FnFinder) {
             syn::Item::Mod(m) => {
                 if let Some((_, its)) = &m.content {
                     find_fn(its, &format!("{}{}::", prefix, m.ident), ff);
+                }
+            }
+            syn::Item::Macro(m) => {
+                let its = cfg_if_items(&m.mac);
+                if !its.is_empty() {
+                    find_fn(&its, prefix, ff);
                 }
             }
             _ => {}
